@@ -1,6 +1,6 @@
 (* C23 — inverse-pair identities for the generated rational definitions and the
    hand-ported mixed-unit list. *)
-From Coq Require Import QArith Qround ZArith Lia List Setoid.
+From Coq Require Import QArith Qround ZArith Lia Lqa List Setoid.
 From NV Require Import Stdlib.Model Gen.NbtFunsQ.
 Import ListNotations.
 Local Open Scope Q_scope.
@@ -38,6 +38,31 @@ Qed.
 Lemma q_trunc_of_Z : forall x n, x == inject_Z n -> q_trunc x == inject_Z n.
 Proof. intros. unfold q_trunc. rewrite (qtrunc_of_Z x n) by assumption. reflexivity. Qed.
 
+Lemma Qfloor_unique_aux : forall x n, inject_Z n <= x -> x < inject_Z (n + 1) -> n = Qfloor x.
+Proof.
+  intros x n H1 H2.
+  assert (A : (n <= Qfloor x)%Z).
+  { rewrite <- (Qfloor_Z n). apply Qfloor_resp_le. assumption. }
+  assert (B : (Qfloor x < n + 1)%Z).
+  { rewrite Zlt_Qlt. apply Qle_lt_trans with x; [apply Qfloor_le|assumption]. }
+  lia.
+Qed.
+
+Lemma qround_of_Z : forall x n, x == inject_Z n -> qround x = n.
+Proof.
+  intros x n H. unfold qround.
+  destruct (Qle_bool 0 x) eqn:E.
+  - assert (B : inject_Z n <= x + (1 # 2) /\ x + (1 # 2) < inject_Z (n + 1)).
+    { rewrite H, inject_Z_plus. split; [|change (inject_Z 1) with 1]; lra. }
+    destruct B as [B1 B2]. symmetry. apply Qfloor_unique_aux; assumption.
+  - assert (B : inject_Z (- n) <= - x + (1 # 2) /\ - x + (1 # 2) < inject_Z (- n + 1)).
+    { rewrite H, inject_Z_plus, inject_Z_opp. split; [|change (inject_Z 1) with 1]; lra. }
+    destruct B as [B1 B2]. rewrite <- (Qfloor_unique_aux _ _ B1 B2). lia.
+Qed.
+
+Lemma q_round_of_Z : forall x n, x == inject_Z n -> q_round x == inject_Z n.
+Proof. intros. unfold q_round. rewrite (qround_of_Z x n) by assumption. reflexivity. Qed.
+
 Lemma q_floor_of_Z : forall x n, x == inject_Z n -> q_floor x == inject_Z n.
 Proof. intros. unfold q_floor. rewrite (Qfloor_of_Z x n) by assumption. reflexivity. Qed.
 
@@ -58,7 +83,7 @@ Qed.
 
 Lemma from_unixtime_us_instant : forall x k, x == inject_Z k -> ffi_from_unixtime_us x == us_instant k.
 Proof.
-  intros x k H. unfold ffi_from_unixtime_us, us_instant. rewrite (q_trunc_of_Z x k H). reflexivity.
+  intros x k H. unfold ffi_from_unixtime_us, us_instant. rewrite (q_round_of_Z x k H). reflexivity.
 Qed.
 
 (* unixtime_X(from_unixtime_X(n)) = n for every integer n *)
@@ -80,14 +105,13 @@ Proof.
   assert (P : forall a b, a == b -> ffi_unixtime_us a == ffi_unixtime_us b).
   { intros a b H. unfold ffi_unixtime_us. rewrite H. reflexivity. }
   repeat split.
-  - unfold nbt_unixtime_s, nbt_unixtime. apply q_floor_of_Z.
-    rewrite (P _ _ Hs), ffi_to_from, inject_Z_mult. unfold nbt_unix_us, nbt_unix_s.
+  - unfold nbt_unixtime_s. apply q_floor_of_Z.
+    rewrite (P _ _ Hs), ffi_to_from, inject_Z_mult.
     change (inject_Z 1000000) with (1000000 # 1). field.
-  - unfold nbt_unixtime_ms, nbt_unixtime. apply q_floor_of_Z.
-    rewrite (P _ _ Hm), ffi_to_from, inject_Z_mult. unfold nbt_unix_us, nbt_unix_ms, nbt_unix_s.
+  - unfold nbt_unixtime_ms. apply q_floor_of_Z.
+    rewrite (P _ _ Hm), ffi_to_from, inject_Z_mult.
     change (inject_Z 1000) with (1000 # 1). field.
-  - unfold nbt_unixtime_us, nbt_unixtime. apply q_floor_of_Z.
-    rewrite (P _ _ Hu), ffi_to_from. unfold nbt_unix_us, nbt_unix_s. field.
+  - unfold nbt_unixtime_us. rewrite (P _ _ Hu). apply ffi_to_from.
 Qed.
 
 (* from_unixtime(unixtime(t)) = t and unixtime(from_unixtime(x)) = x on whole microseconds *)
